@@ -502,6 +502,7 @@ func (e *Engine) checkpoint(where string) {
 	for _, p := range w.Problems {
 		e.problem("C14", "structure", "%s: %s", where, p)
 	}
+	e.db.rawStatsExpected = where != "final-after-trailing"
 	for _, p := range ReconcileStats(e.db, w) {
 		e.problem("C14", "statistics", "%s: %s", where, p)
 	}
